@@ -185,7 +185,7 @@ def s_entry():
 
 # ---- expression trees over objects built by library constructors -----------
 
-LEAF_CTORS = ["Rx", "Ry", "Rz", "RPY", "Eul", "AngVec", "EulerVec", "Rand", "ref"]
+LEAF_CTORS = ["Rx", "Ry", "Rz", "RPY", "Eul", "AngVec", "EulerVec", "Rand", "ref", "RxN", "RandN"]
 
 
 def tree(depth):
@@ -218,10 +218,20 @@ def _leaf(cn, ctor, p):
     cls = getattr(L, cn)
     k = _k(p)
     if cn in ("SO2", "SE2"):
+        if ctor in ("RxN", "RandN"):
+            angs = [x * k for x in (p["a"] + p["avec"])[:3]]
+            if cn == "SO2":
+                return L.SO2(angs, unit=p["unit"])
+            return L.SE2([refs.rt(refs.rot2(a / k), [p["t"][0], p["t"][1]]) for a in angs], check=False)
         if cn == "SO2":
             return L.SO2(p["a"][0] * k, unit=p["unit"]) if ctor != "ref" else L.SO2(refs.rot2(p["X2"]["angle"]))
         return L.SE2(p["t"][0], p["t"][1], p["a"][0] * k, unit=p["unit"]) if ctor != "ref" else L.SE2(refs.pose2_of(p["X2"]), check=False)
-    if ctor in ("Rx", "Ry", "Rz"):
+    if ctor == "RxN":       # multi-valued leaf (always three values, so that sequences broadcast)
+        X = cls.Rx([x * k for x in (p["a"] + p["avec"])[:3]], p["unit"])
+    elif ctor == "RandN":
+        np.random.seed(p["seed"])
+        return cls.Rand(N=3)
+    elif ctor in ("Rx", "Ry", "Rz"):
         X = getattr(cls, ctor)(p["a"][0] * k, p["unit"])
     elif ctor == "RPY":
         X = cls.RPY([x * k for x in p["a"]], order=p["order"], unit=p["unit"])
@@ -239,7 +249,7 @@ def _leaf(cn, ctor, p):
         if cn == "UnitQuaternion":
             return L.UnitQuaternion([float(x) for x in refs.q_of(p["X"]["rot"])])
         return cls(T if cn == "SE3" else T[:3, :3].copy(), check=False)
-    if cn == "SE3" and ctor != "Rand":
+    if cn == "SE3" and ctor not in ("Rand", "RandN"):
         X = L.SE3(list(p["t"])) * X
     return X
 
@@ -258,7 +268,8 @@ def _eval(t, cn, ps, seen):
         r = _eval(t[1], cn, ps, seen) ** t[2]
     elif k == "interp":
         x = _eval(t[1], cn, ps, seen)
-        r = x.interp(t[2])
+        # UnitQuaternion.interp is documented for a single value only
+        r = x.interp(t[2]) if not (cn == "UnitQuaternion" and len(x) > 1) else x
     elif k == "norm":
         x = _eval(t[1], cn, ps, seen)
         r = x.norm() if cn in ("SO3", "SE3") else (x.unit() if cn == "UnitQuaternion" else x)
@@ -266,6 +277,9 @@ def _eval(t, cn, ps, seen):
         xs = [_eval(u, cn, ps, seen) for u in t[1:]]
         if cn == "UnitQuaternion":
             r = xs[0] * xs[1] * xs[2]
+        elif any(len(x) > 1 for x in xs):
+            big = [x for x in xs if len(x) > 1][0]
+            r = big.prod()                       # product of the values of one multi-valued operand
         else:
             r = getattr(L, cn)(xs).prod()
     seen.append((r, k))
@@ -359,8 +373,9 @@ def classify(case):
         lab["nontrivial"] = bool(lab["deg"] or lab["near_special_angle"] or lab["axis_len_not_unit"] or lab["|t|>1e3"] or lab["nondefault_order"])
     else:
         d = depth_of(case["tree"])
-        lab.update({"cls:" + case["cls"]: True, "depth>=2": d >= 2})
-        lab["nontrivial"] = d >= 2
+        multi = "RxN" in str(case["tree"]) or "RandN" in str(case["tree"])
+        lab.update({"cls:" + case["cls"]: True, "depth>=2": d >= 2, "multi_valued_tree": multi})
+        lab["nontrivial"] = d >= 2 or multi
     return lab
 
 
